@@ -240,6 +240,41 @@ def _attr_in(v):
     return v
 
 
+def _attr_kind(v):
+    if isinstance(v, (str, bytes, _np.str_, _np.bytes_)):
+        return "s"
+    if isinstance(v, (bool, _np.bool_)):
+        return "b"
+    if isinstance(v, (float, _np.floating)):
+        return "f"
+    if isinstance(v, (list, tuple, _np.ndarray)):
+        return "l"
+    return "i"
+
+
+def _attr_cast(old, value):
+    """the value `modify` stores: `value` converted to the type the attribute already has"""
+    k = _attr_kind(old)
+    if k == "l":
+        olds = list(old)
+        if not isinstance(value, (list, tuple, _np.ndarray)) or len(list(value)) != len(olds):
+            raise TypeError("Shape of data is incompatible with existing attribute")
+        return [_attr_cast(olds[0], x) for x in value] if olds else []
+    if isinstance(value, (list, tuple, _np.ndarray)):
+        raise TypeError("Shape of data is incompatible with existing attribute")
+    if k == "s":
+        if not isinstance(value, (str, bytes, _np.str_, _np.bytes_)):
+            raise TypeError("Can't implicitly convert non-string objects to strings")
+        return value
+    if value is None:
+        raise TypeError("a number is required, not 'NoneType'")
+    if k == "b":
+        return bool(value)
+    if k == "f":
+        return float(value)
+    return int(value)          # integers: truncation towards zero, text is parsed (ValueError if it cannot be)
+
+
 class Attrs:
     def __init__(self, handle):
         self.h = handle
@@ -260,10 +295,14 @@ class Attrs:
         self.h.node.attrs[name] = _attr_in(value)
 
     def modify(self, name, value):
+        """h5py: change the value while PRESERVING the attribute's stored type (a missing attribute is
+        created) - pinned by the differential script"""
         self.h._check_write("modify attribute")
-        if name not in self.h.node.attrs:
-            raise KeyError(name)
-        self.h.node.attrs[name] = _attr_in(value)
+        d = self.h.node.attrs
+        if name not in d:
+            d[name] = _attr_in(value)
+            return
+        d[name] = _attr_cast(d[name], value)
 
     def __delitem__(self, name):
         self.h._check_write("delete attribute")
@@ -1752,6 +1791,20 @@ def _script_tables(h5, path):
         obs.append(("deleted", "u" in f))
         e = f.require_dataset("e", shape=(0,), dtype=dt, chunks=True, maxshape=(None,))
         obs.append(("empty", ex(lambda: e[:]), ex(lambda: e[0]), ex(lambda: e[[0]]), ex(lambda: e[[]]), len(e)))
+        # attrs.modify keeps the stored type
+        g = f.require_dataset("attrs_here", shape=(1,), dtype=_np.float64)
+        g.attrs["i"] = 1
+        g.attrs["f"] = 0.5
+        g.attrs["s"] = "abc"
+        g.attrs["l"] = [1, 2]
+        g.attrs["b"] = True
+        for name, val in (("i", 0.25), ("i", 2.75), ("i", -1.5), ("f", 3), ("s", "xyzuvw"), ("s", ""), ("s", "\u00fc"),
+                          ("i", "7"), ("i", "x"), ("s", 5), ("l", [1.5, 2.5]), ("l", [1, 2, 3]), ("b", 0.5),
+                          ("f", "1.5"), ("i", True), ("i", None), ("zz", 1)):
+            def seq(v):
+                return list(_np.asarray(v).tolist()) if isinstance(v, (list, tuple, _np.ndarray)) else v
+            obs.append(("modify", name, repr(val), ex(lambda: g.attrs.modify(name, val)),
+                        ex(lambda: seq(g.attrs[name])), ex(lambda: _attr_kind(g.attrs[name]))))
         # numeric arrays: the whole selection is validated before anything is read
         a = f.require_dataset("a", shape=(3, 4), dtype=_np.float64, chunks=True, maxshape=(None, None))
         a[...] = _np.arange(12.0).reshape(3, 4)
